@@ -13,13 +13,13 @@ TECHNIQUE = ('runtime monitoring with fault injection: a file-object proxy insta
              'flush / close (and the final rename) on files under the output directory; one run per k raises OSError at the '
              'k-th call; directory census before and after')
 RULE = ('for each built-in generator (textX->dot, textX->PlantUML, any->dot) and each model of a small corpus (grammar files of '
-        'different sizes, models with 1-30 objects): a clean run counts the N write/flush/close/rename calls on the target; '
+        'different sizes, models with 1-30 objects, a model made of three files): a clean run counts the N write/flush/close/rename calls on the target; '
         'then EVERY k in 1..N is injected (exhaustive) under two models of the file object (write-through; buffered: text '
         'written so far is lost when the flush inside flush()/close() fails, as on a full disk), with the target absent, with an older target present plus overwrite, and with the target being a symbolic link '
         '(valid + overwrite, dangling). Oracle: after the failure the output directory holds no new file (target absent; with overwrite the old '
         'or the complete new content), and a following run without overwrite produces the complete file. distinct = '
         '(generator, model, k, pre-existing target); non-trivial = k > 1 (something was already written)')
-REQUIRED = {'fault_points_injected': 150, 'buffered_mode_faults': 75, 'write_through_faults': 75, 'generators': 3, 'clean_runs': 9, 'with_existing_target': 40, 'with_symlink_target': 20, 'with_dangling_symlink_target': 20, 'followup_runs': 100}
+REQUIRED = {'fault_points_injected': 150, 'buffered_mode_faults': 75, 'write_through_faults': 75, 'generators': 3, 'clean_runs': 10, 'multi_file_model_cases': 1, 'with_existing_target': 40, 'with_symlink_target': 20, 'with_dangling_symlink_target': 20, 'followup_runs': 100}
 
 GRAMMARS = [
     "Model: 'm' x=INT;",
@@ -145,8 +145,12 @@ def norm(text):
     return re.sub(r'\b\d{6,}\b', 'ID', text)
 
 
+GRAMMAR_MF = "Model: imports*=Import defs+=Def refs*=Ref;\nImport: 'import' importURI=STRING;\nDef: 'def' name=ID;\nRef: 'ref' t=[Def];\n"
+MF_FILES = {'main.m': 'import "lib.m"\ndef a def b ref a ref l1\n', 'lib.m': 'import "lib2.m"\ndef l1 def l2 ref l2 ref k\n', 'lib2.m': 'def k\n'}
+
+
 def corpus():
-    out = []
+    out = [('any', 'dot', 'mf', 'mf')]
     for gi, g in enumerate(GRAMMARS):
         out.append(('textX', 'dot', gi, None))
         out.append(('textX', 'PlantUML', gi, None))
@@ -165,11 +169,22 @@ def run_case(ctx, ci, rep_base):
         out = os.path.join(tmp, 'out')
         os.makedirs(src)
         os.makedirs(out)
-        gfile = os.path.join(src, 'lang%d.tx' % gi)
+        gfile = os.path.join(src, 'lang%s.tx' % gi)
         with open(gfile, 'w') as f:
-            f.write(GRAMMARS[gi])
+            f.write(GRAMMARS[gi] if gi != 'mf' else GRAMMAR_MF)
         gen = generator_for_language_target(lang, target, any_permitted=True)
-        if lang == 'textX':
+        if gi == 'mf':
+            # a model made of several files (import closure): the export writes one cluster per file
+            import textx.scoping.providers as sp
+            mm = metamodel_from_str(GRAMMAR_MF)
+            mm.register_scope_providers({'*.*': sp.PlainNameImportURI()})
+            for nm, t in MF_FILES.items():
+                with open(os.path.join(src, nm), 'w') as f:
+                    f.write(t)
+            model = mm.model_from_file(os.path.join(src, 'main.m'))
+            base = 'main.dot'
+            ctx.count('multi_file_model_cases')
+        elif lang == 'textX':
             mm = metamodel_for_language('textx')
             model = mm.model_from_file(gfile)
             ext = 'dot' if target == 'dot' else 'pu'
@@ -200,7 +215,7 @@ def run_case(ctx, ci, rep_base):
         with open(tpath, encoding='utf-8') as f:
             complete = norm(f.read())
         n = STATE['calls']
-        ctx.note('calls_in_clean_run_%s_%s_%s' % (lang, target, gi if mi is None else 'm%d' % mi), n)
+        ctx.note('calls_in_clean_run_%s_%s_%s' % (lang, target, gi if mi is None else 'm%s' % mi), n)
         os.remove(tpath)
         store = os.path.join(tmp, 'store')
         os.makedirs(store)
